@@ -298,6 +298,10 @@ def check(ctx):
         else:
             r6.bad(V(r6.id, gid, "mapped-names-still-declared", "%s never removes mapped names from the declared types: a mapped project type is still emitted" % short_path(gid),
                      P.fns[gid].file, P.fns[gid].line))
+    from c07 import check_emitter_reads_used_set
+    check_emitter_reads_used_set(P, r6)
+    for v_ in r6.violations:
+        v_.rule = r6.id
     r6.require_floor(2, "generators")
     rules.append(r6)
 
